@@ -256,6 +256,8 @@ def run(tier, selftest=False, only=None):
         large_grid_positions(rep, rng)
     with rep.guard("omitted-space", None):
         omitted_space_checks(rep, systems)
+    with rep.guard("own-inputs", None):
+        own_inputs_checks(rep)
     history_checks(rep, tier, seed, rng)
     rep.traces = len(cases)
     rep.sample({"spec_case": cases[0][0], "expected_default_state": [float(UO.mono(m)) for m in out[0]["state"]]})
@@ -418,6 +420,56 @@ def omitted_space_checks(rep, systems):
         want = [float(UO.mono(mono_of(Fr(3), qty_scale(us)))), float(2 * cell_m3 / Fr(10) ** (3 * SP_EXP["µm"])), 0.0]
         if len(got) != 3 or not all(close(a, b) for a, b in zip(got, want)):
             rep.violation("default", "layout:default-state:omitted-space", dict(tag, got=got, spec=want))
+
+
+def own_inputs_checks(rep):
+    """What a system, its network and its space are built from is theirs afterwards: the caller overwriting, in place, a list,
+    array or dictionary it passed to a constructor changes neither the arrays the system holds nor the defaults it regenerates."""
+    net = lambda **kw: RDNetwork(species=[Species("A", **kw), Species("B", density=5.0)], reactions=[], environments=["a", "b"])
+    grid = lambda env=(0, 1): RDGridSpace(w=2, cell_env=env if not isinstance(env, tuple) else list(env), cell_vol=2.0)
+
+    def view(system):
+        regenerated = system.copy()
+        regenerated.set_default_state()
+        regenerated.set_default_chemostats()
+        return [si_state(system), [int(v) for v in system.chemostats], si_state(regenerated), [int(v) for v in regenerated.chemostats]]
+
+    def overwrite(x):
+        if isinstance(x, dict):
+            flags = all(isinstance(v, bool) for v in x.values())
+            for k_ in sorted(set(x) | {"a", "b", "default"}):          # every entry overwritten once, missing ones added
+                x[k_] = (not x.get(k_, False)) if flags else 77.0
+        elif isinstance(x, UnitArray):
+            x.value[:] = 77.0
+        elif isinstance(x, np.ndarray):
+            x[:] = (1 - x) if x.dtype.kind in "iub" else 77.0
+        else:
+            x[:] = [(1 - v) if v in (0, 1) else 77.0 for v in x]
+    cases = []
+    for name, mk in (("density-dict", lambda: {"a": 1.0, "default": 3.0}), ("chstt-dict", lambda: {"a": True, "b": False})):
+        key = "density" if name.startswith("density") else "chstt"
+        cases.append((name, lambda mk=mk, key=key: (lambda d: (RDSystem(network=net(**{key: d}), space=grid()), d))(mk())))
+    for name, mk in (("cell_env-list", lambda: [0, 1]), ("cell_env-ndarray", lambda: np.array([0, 1]))):
+        cases.append((name, lambda mk=mk: (lambda e: (RDSystem(network=net(density={"a": 1.0, "b": 4.0}, chstt={"b": True}), space=grid(e)), e))(mk())))
+    for name, mk in (("state-list", lambda: [1.0, 2.0, 3.0, 4.0]), ("state-ndarray", lambda: np.array([1.0, 2.0, 3.0, 4.0])),
+                     ("state-UnitArray", lambda: UnitArray([1.0, 2.0, 3.0, 4.0], "molecule"))):
+        cases.append((name, lambda mk=mk: (lambda x: (RDSystem(network=net(density=1.0), space=grid(), state=x), x))(mk())))
+    for name, mk in (("chemostats-list", lambda: [0, 1, 0, 0]), ("chemostats-ndarray", lambda: np.array([0, 1, 0, 0])),
+                     ("chemostats-bool-ndarray", lambda: np.array([False, True, False, False]))):
+        cases.append((name, lambda mk=mk: (lambda x: (RDSystem(network=net(density=1.0), space=grid(), chemostats=x), x))(mk())))
+    for name, build_fn in cases:
+        rep.case(["own-inputs", name])
+        try:
+            system, handed = build_fn()
+            before = view(system)
+            overwrite(handed)
+            after = view(system)
+        except Exception as ex:  # noqa
+            rep.violation("default", "layout:own-inputs-exception:" + name, {"exc": repr(ex)[:200]})
+            continue
+        if before != after:
+            rep.violation("default", "layout:system-follows-an-object-held-by-the-caller:" + name,
+                          {"held_and_regenerated_before": before, "after_the_caller_overwrote_what_it_passed": after})
 
 
 # ---- histories of one system object (specs/SystemEdit.tla): TLC generates call sequences, the object is driven along them ----
